@@ -67,6 +67,13 @@ def _cases_core(rng, tier):
             yield "sec_parse " + hx(bytes([rng.choice([0, 1, 5, 8, 0xff])]) + sec_c(x, y)[1:]), "sec-bad-prefix"
             yield "sec_parse " + hx(sec_c(x, y)[:rng.randint(0, 32)]), "sec-short"
             yield "sec_parse " + hx(sec_c(x, y) + b"\x00"), "sec-long"
+    # scalars that agree under a projection (hash(int), low/high bits), constructed back to back in one process
+    for ka, kb, why in common.projection_siblings(rng, 6 if tier == "quick" else 60):
+        for k in (ka, kb, ka):
+            yield "priv_new " + hx(k.to_bytes(32, "big")), "projection-siblings-" + why
+        for k in (kb, ka):
+            yield "priv_int %d" % k, "projection-siblings-int"
+            yield "from_wif " + sx(b58check_enc(b"\x80" + k.to_bytes(32, "big") + b"\x01")), "projection-siblings-wif"
     # rejection of scalars
     for v in (0, N, N + 1, 2 ** 256 - 1, 2 ** 256, 2 ** 256 + 5, N + 2 ** 200):
         yield "priv_int %d" % v, "priv-int-reject"
